@@ -3,8 +3,8 @@
 // (pos.guards.copy( guard_prev_item, guard_current_item ); ... copy( guard_current_item, guard_next_item )).
 // A scan that read slot 0 before the copy and slot 1 after the overwrite never sees the node, although the searching
 // thread holds it continuously (pPrev points into it): the node is disposed under the reader.
-// The list is {1, 2}; thread 0: contains(2); thread 1: erase(1), then 11 retires of unrelated objects so that its
-// retired array (capacity 12) fills up and a scan starts.  Monitor: atomic accesses to node 1's m_pNext after the
+// The list is {1, 2}; thread 0: contains(2); thread 1: erase(1), then capacity-1 retires of unrelated objects ([20 0]) so
+// that its retired array (capacity 13, pre-filled with capacity-1 entries before the run) fills up and a scan starts.  Monitor: atomic accesses to node 1's m_pNext after the
 // disposer of node 1 ran ("mon ... uaf <n>").
 // usage: hp_copy <casefile>      ops: [9 k] contains k, [4 k] erase k, [20 n] retire n unrelated objects
 #include <cds/init.h>
@@ -25,7 +25,8 @@ int main( int argc, char** argv )
 {
     cds::Initialize();
     {
-        cds::gc::HP hp( 4, 3, 12 );
+        cds::gc::HP hp( 4, 3, 13 );    // retired capacity 13 (must exceed 4 * 3)
+        long const cap = (long) cds::gc::hp::details::basic_smr::instance().get_max_retired_ptr_count();
         cds::threading::Manager::attachThread();
         std::ifstream in( argv[1] );
         vcase::Case c;
@@ -38,12 +39,12 @@ int main( int argc, char** argv )
                 for ( auto const& op : c.threads[t] ) {
                     char b[64];
                     if ( op[0] == 9 ) { std::snprintf( b, sizeof b, "inv contains %ld", op[1] ); vs::emit( b ); bool r = l->contains( (int) op[1] ); std::snprintf( b, sizeof b, "ret %d", r ); vs::emit( b ); }
-                    if ( op[0] == 20 ) { vs::emit( "inv retire_dummies" ); for ( long i = 0; i < op[1]; ++i ) cds::gc::HP::retire( (void*) dummies[20 + i], +[]( void* ) {} ); vs::emit( "ret 0" ); }
+                    if ( op[0] == 20 ) { vs::emit( "inv retire_dummies" ); for ( long i = 0; i + 1 < ( op[1] > 0 ? op[1] + 1 : cap ); ++i ) cds::gc::HP::retire( (void*) dummies[30 + i], +[]( void* ) {} ); vs::emit( "ret 0" ); }
                     if ( op[0] == 4 ) { std::snprintf( b, sizeof b, "inv erase %ld", op[1] ); vs::emit( b ); bool r = l->erase( (int) op[1] ); std::snprintf( b, sizeof b, "ret %d", r ); vs::emit( b ); }
                 }
             },
             [&]( int t ) { cds::threading::Manager::attachThread();
-                           if ( t == 1 ) for ( int i = 0; i < 11; ++i ) cds::gc::HP::retire( (void*) dummies[i], +[]( void* ) {} ); },
+                           if ( t == 1 ) for ( long i = 0; i + 1 < cap; ++i ) cds::gc::HP::retire( (void*) dummies[i], +[]( void* ) {} ); },
             []( int ) { cds::threading::Manager::detachThread(); }, 20000 );
             int id1 = vs::obj_id( &n1->m_pNext );
             vcase::print_log( c );
